@@ -11,7 +11,7 @@ from .. import common as C
 PROP = "C15"
 # obligations of the properties this one is downstream of are obligations of this check too (vk.runner.collect_obligations)
 UPSTREAM = ["C05"]
-GEN_REGIONS = ["Attrs", "Miso"]
+GEN_REGIONS = ["Attrs", "Miso", "GlobalState"]
 THEOREMS = {
     # speckit/systems.py as TRANSLATED on every run (Gen/Miso.lean): the residual statements of both solvers equal the hand model
     # Model.misoResidual on the arrays the translated assembly builds; the assembly (which attribute of which ltf([a, b]) call is filed where,
@@ -31,6 +31,9 @@ THEOREMS = {
         "Miso.residual_is_norm", "Miso.residual_real_nonneg", "Miso.normal_eq_minimises", "Miso.residual_le_output",
         "Miso.solvers_agree", "Miso.exact_combination_zero", "Miso.remix_invariant", "Miso.siso_case", "model_misoResidual_toC"],
     "SpecKitV.Props.AttrsA": ["residual_identity", "residual_identity'", "residual_eq_GyyRx"],
+    # no state outlives a call in the files this property is anchored in (no module/class-level containers, memoisers, mutable defaults) and the
+    # decorators are exactly the audited ones (region GlobalState, re-scanned from the current source each run)
+    "SpecKitV.Props.GlobalStateGen": ["GlobalStateGen.gen_globalState_systems"],
 }
 CONTRACTS = [
     "sympy.solve / np.linalg.solve / np.linalg.pinv return a solution H of the normal equations sum_j T_ij H_j = S_i "
